@@ -234,6 +234,25 @@ type actorSpec struct {
 	rootDirs []string
 }
 
+// freshDir is a directory of the start state that NEVER had an entry, and the
+// root of the view V3 (full alphabet, both tiers, both OS types).
+//
+// General lesson: containers are allocated lazily and released by shortcuts
+// ("nothing in it: nothing to do"). A directory that never held an entry is
+// internally another object than one that was populated and emptied again (no
+// table of children yet), although no call of the public API tells them apart,
+// and code that runs when a directory is removed, listed or given its first
+// entry takes another path for it. Every other directory a view is rooted at
+// in this driver contains something, or did once. So the start state also
+// holds a directory nothing was ever created in, with a view on it, and the
+// whole history alphabet applies to it: the parent (and the view of "/")
+// removes it with Remove / RemoveAll, directly or by removing the directory
+// above it, renames it, chmods it, gives it its first entry; the view creates
+// in it, before and after. The rules are the ones of every other view: the
+// twin comparison while the view is attached, and "nothing is created through
+// a view whose root directory was removed" afterwards.
+const freshDir = "/p/e"
+
 // rootModes: one of x, w, r missing for group and others (the view roots of
 // the start state belong to the administrator: the non-admin users are
 // "others" there); the plain Chmod of the alphabet (0700) removes all three.
@@ -286,6 +305,8 @@ func linuxSpecs(tier string, core bool) []actorSpec {
 	parentAbs := []string{"/", "/p", "/p/q", "/p/q/f", "/p/g", "/p/new", "/p/q/new", "/o", "/o/h", "/new", "/p/q/../.."}
 	parentRel := []string{"f", "q/f", "p/g", "..", "new"}
 	parentSrc := []string{"/p", "/p/q", "/p/q/f", "/p/g", "/o/h", "/o"}
+	rootAbs := append(append([]string{}, parentAbs...), freshDir, "/..", "/../o/h") // operands of the view of "/"
+	parentAbs = append(parentAbs, freshDir, freshDir+"/new")
 	parentDst := []string{"/new", "/p/new", "/p/q/new", "/o/new", "/p/g", "/p/q"}
 	users := []string{"u1", "u2", "root"}
 	umasks := []uint32{0, 0o027, 0o077}
@@ -293,8 +314,8 @@ func linuxSpecs(tier string, core bool) []actorSpec {
 	specs := []actorSpec{
 		{
 			name: "parent", kind: "parent", dir: "/",
-			abs: parentAbs, rel: parentRel, src: parentSrc, dst: parentDst,
-			rootDirs: []string{"/p", "/p/q"},
+			abs: parentAbs, rel: parentRel, src: append(append([]string{}, parentSrc...), freshDir), dst: parentDst,
+			rootDirs: []string{"/p", "/p/q"}, // (the modes of freshDir are set through V3)
 		},
 		{
 			name: "V1", kind: "view", dir: "/p", users: users, umasks: umasks,
@@ -318,11 +339,22 @@ func linuxSpecs(tier string, core bool) []actorSpec {
 	{
 		specs = append(specs, actorSpec{
 			name: "V0", kind: "rootview", dir: "/", users: users, umasks: umasks,
-			abs: append(append([]string{}, parentAbs...), "/..", "/../o/h"),
+			abs: rootAbs,
 			rel: parentRel, src: parentSrc, dst: parentDst,
 			recv: "parent", sub: []string{"/", "/p/..", ".", ".."},
 		})
 	}
+
+	// the view of a directory that never had an entry (freshDir)
+	specs = append(specs, actorSpec{
+		name: "V3", kind: "view", dir: freshDir,
+		ops: []string{"Mkdir", "MkdirAll", "WriteFile", "OpenFile", "Remove", "RemoveAll", "Stat", "ReadDir", "Chdir"},
+		abs: []string{"/", "/new", "/new/sub"},
+		rel: []string{"new"},
+		src: []string{"/new"}, dst: []string{"/new2", "/../new"},
+		users: []string{"u1", "root"}, umasks: []uint32{0o077},
+		recv: "parent", sub: []string{freshDir, path.Base(freshDir)}, rootDirs: []string{"/"},
+	})
 
 	return specs
 }
